@@ -1,16 +1,17 @@
 #!/bin/sh
-# Every regression input in corpus/ must FAIL on the pinned base commit and PASS on the current tree.
+# Every regression input in corpus/ must FAIL on the pinned base commit (or on the commit named in its
+# "fails_on" field) and PASS on the current tree.
 BASE=${1:-accafc8}
-WT=/tmp/vp_wt_base
-git -C /repo worktree remove --force $WT 2>/dev/null
-git -C /repo worktree add -q $WT $BASE || exit 2
 rc=0
 for f in /verif/corpus/*/*.json; do
   p=$(basename $(dirname $f))
+  c=$(/venv/bin/python -c "import json,sys; print(json.load(open('$f')).get('fails_on','$BASE'))")
+  WT=/tmp/vp_wt_$c
+  if [ ! -d $WT ]; then git -C /repo worktree add -q $WT $c || exit 2; fi
   VERIF_REPO=$WT /venv/bin/python -m vpcheck $p --replay $f >/dev/null 2>&1; b=$?
-  /venv/bin/python -m vpcheck $p --replay $f >/dev/null 2>&1; c=$?
-  if [ $b -ne 1 ] || [ $c -ne 0 ]; then echo "UNEXPECTED $f base=$b current=$c"; rc=1; fi
+  /venv/bin/python -m vpcheck $p --replay $f >/dev/null 2>&1; cur=$?
+  if [ $b -ne 1 ] || [ $cur -ne 0 ]; then echo "UNEXPECTED $f base($c)=$b current=$cur"; rc=1; fi
 done
-git -C /repo worktree remove --force $WT
+for d in /tmp/vp_wt_*; do git -C /repo worktree remove --force $d; done
 echo "corpus selftest rc=$rc"
 exit $rc
